@@ -128,9 +128,9 @@ func extremeWireCases() []wireCase {
 		if n == 65507 {
 			note = "the largest UDP payload"
 		}
-		out = append(out, wireCase{fmt.Sprintf("well-formed video packet of %d bytes (%s)", n, note), []wireFrame{wf(0, bigPacket(n, 9, vts), note)}})
+		out = append(out, wireCase{fmt.Sprintf("well-formed video packet of %d bytes (%s)", n, note), []wireFrame{wf(0, bigPacket(n, 9, vts), note)}, 0})
 	}
-	out = append(out, wireCase{"three packets of 65535 bytes in a row", []wireFrame{wf(0, bigPacket(65535, 9, vts), ""), wf(0, bigPacket(65535, 10, vts), ""), wf(0, bigPacket(65535, 11, vts), "")}})
+	out = append(out, wireCase{"three packets of 65535 bytes in a row", []wireFrame{wf(0, bigPacket(65535, 9, vts), ""), wf(0, bigPacket(65535, 10, vts), ""), wf(0, bigPacket(65535, 11, vts), "")}, 0})
 	return out
 }
 
@@ -205,7 +205,18 @@ func runPlayersCase(t *testing.T, w wireCase) {
 	for _, h := range w.fr {
 		pub.WriteFrame(h.Ch, h.raw) // a failure shows below: nothing of the probe arrives
 	}
-	probe := buildProbe(esgen.H264, true, playersK, 90000+2*probeStep, 20000, 30000)
+	// let a burst of large datagrams drain first: the UDP sockets of the harness have
+	// a finite kernel buffer, and what is judged is the probe, not the burst
+	if len(w.fr) > 3 {
+		last, since := -1, time.Now()
+		mediah.WaitFor(2*time.Second, func() bool {
+			if n := len(sinks[0].snapshot()); n != last {
+				last, since = n, time.Now()
+			}
+			return time.Since(since) > 30*time.Millisecond
+		})
+	}
+	probe := buildProbeRot(esgen.H264, true, playersK, 90000+2*probeStep, 20000, 30000, w.rot)
 	var want, wantV, wantA [][]byte
 	for _, au := range probe {
 		for _, p := range au.pkts {
@@ -242,7 +253,11 @@ func runPlayersCase(t *testing.T, w wireCase) {
 		}
 	}
 	fseq, fts := uint16(40000), uint32(90000+9*probeStep)
-	deadline := time.Now().Add(wireTimeout)
+	collect := wireTimeout
+	if len(w.fr) > 3 {
+		collect = 6 * wireTimeout // megabytes go to three players at ipchub's paced flush rate
+	}
+	deadline := time.Now().Add(collect)
 	for time.Now().Before(deadline) && !(seen(gotTCP) && seen(gotWS)) {
 		pub.WriteFrame(0, rtppack.Pkt{PT: 96, Marker: true, Seq: fseq, TS: fts, SSRC: probeSSRC, Payload: []byte{0x41, 0x9a, 0x02, 0x80, 0x80}}.Marshal())
 		fseq++
@@ -250,7 +265,7 @@ func runPlayersCase(t *testing.T, w wireCase) {
 		drain(tcp, &gotTCP)
 		drain(ws, &gotWS)
 	}
-	mediah.WaitFor(wireTimeout, func() bool { return sinks[0].has(wantV[len(wantV)-1]) && sinks[2].has(wantA[len(wantA)-1]) })
+	mediah.WaitFor(collect, func() bool { return sinks[0].has(wantV[len(wantV)-1]) && sinks[2].has(wantA[len(wantA)-1]) })
 
 	var outs []playerOutcome
 	judgeList := func(transport string, got, want [][]byte, what string) string {
@@ -281,13 +296,38 @@ func runPlayersCase(t *testing.T, w wireCase) {
 	still := srv.Consumers(path)
 	for _, o := range outs {
 		if o.Missing != "" || o.Conn != "" {
-			evid.Violation(t, "wire-players/"+o.Transport, map[string]any{"class": w.class, "hostile_frames": w.fr, "players": outs, "consumers_now": still},
+			evid.Violation(t, "wire-players/"+o.Transport, map[string]any{"class": w.class, "hostile_frames": briefFrames(w.fr), "players": outs, "consumers_now": still},
 				"%s player (%s): %s %s; consumers still attached: %d of 3", o.Transport, w.class, o.Missing, o.Conn, still)
 		}
 	}
 	if still != 3 {
-		evid.Violation(t, "wire-players/detached", map[string]any{"class": w.class, "hostile_frames": w.fr, "players": outs, "consumers_now": still},
+		evid.Violation(t, "wire-players/detached", map[string]any{"class": w.class, "hostile_frames": briefFrames(w.fr), "players": outs, "consumers_now": still},
 			"(%s): %d of 3 players are still attached to the stream", w.class, still)
+	}
+	// the publisher's session goroutine is not stuck: it answers a request; and when
+	// the publisher leaves, every player sees the end of the stream within the bound
+	if r, err := pub.Do("OPTIONS", url, nil, nil); err != nil || r.Status != 200 {
+		evid.Violation(t, "wire-players/publisher", map[string]any{"class": w.class, "frames": len(w.fr)}, "(%s): the publisher's session does not answer OPTIONS after the frames: %v %v", w.class, r, err)
+	}
+	pub.Close()
+	if !srv.WaitFor(wireTimeout, func() bool { return srv.Consumers(path) < 0 }) {
+		evid.Violation(t, "wire-players/stream-not-ended", map[string]any{"class": w.class, "frames": len(w.fr)}, "(%s): %v after the publisher disconnected its stream is still registered", w.class, wireTimeout)
+	}
+	for _, pc := range []struct {
+		name string
+		c    *rtspc.Client
+	}{{"tcp", tcp}, {"ws-rtsp", ws}, {"udp", udp}} {
+		ended := false
+		for dl := time.Now().Add(wireTimeout); time.Now().Before(dl); {
+			_, err := pc.c.ReadItemTimeout(50 * time.Millisecond)
+			if err != nil && err != rtspc.ErrTimeout {
+				ended = true
+				break
+			}
+		}
+		if !ended {
+			evid.Violation(t, "wire-players/no-end-of-stream", map[string]any{"class": w.class, "frames": len(w.fr), "player": pc.name}, "(%s): the %s player's connection is still open %v after the publisher disconnected", w.class, pc.name, wireTimeout)
+		}
 	}
 	// how the UDP player fared with the extreme packet itself (not demanded)
 	for _, h := range w.fr {
@@ -300,7 +340,7 @@ func runPlayersCase(t *testing.T, w wireCase) {
 		}
 	}
 	evid.Class("wire-players: " + w.class)
-	evid.Nontrivial(evid.FP("wire-players", w.class, fmt.Sprint(w.fr)))
+	evid.Nontrivial(evid.FP("wire-players", w.class, len(w.fr)))
 }
 
 func TestWirePlayersSurviveHostileInput(t *testing.T) {
@@ -308,7 +348,10 @@ func TestWirePlayersSurviveHostileInput(t *testing.T) {
 	var cases []wireCase
 	cases = append(cases, extremeWireCases()...)
 	cases = append(cases, refusedWireCases()...)
-	cases = append(cases, hostileWireCases()...)
+	// 24 middle fragments (1.6 MB) here: ipchub paces what it writes to TCP / ws
+	// players, and three players times 5 MiB would only test the harness's patience;
+	// the 5.3 MiB units go through the publisher-side wire test and the in-process check
+	cases = append(cases, hostileWireCases(24)...)
 	sem := make(chan struct{}, 6) // a few cases at a time: each holds 5 connections and 4 UDP sockets
 	for i, c := range cases {
 		c := c
@@ -320,4 +363,12 @@ func TestWirePlayersSurviveHostileInput(t *testing.T) {
 			runPlayersCase(t, c)
 		})
 	}
+}
+
+// briefFrames keeps violation files small: at most four frames in full.
+func briefFrames(fr []wireFrame) any {
+	if len(fr) <= 4 {
+		return fr
+	}
+	return map[string]any{"count": len(fr), "first": fr[0], "last": fr[len(fr)-1], "bytes_each": len(fr[1].raw)}
 }
